@@ -195,7 +195,7 @@ def suspicious(rec):
     if rec.get("bytes_eq") is False:
         return True
     m = rec.get("model") or {}
-    if m.get("gf") not in (None, "eq"):
+    if m.get("gf") not in (None, "eq", "eq-code"):
         return True
     real = rec.get("real") or {}
     for v in real.values():
@@ -227,6 +227,8 @@ def distribution(records):
             c["outside_cwd_runs"] += 1
             if (r.get("checks") or {}).get("C16-outside-F23"):
                 c["outside_cwd_f23_class"] += 1
+        if m.get("gf") == "eq-code":
+            c["structured_model_equal_up_to_comments_and_layout"] += 1
         if m.get("orddep") == "true":
             c["model_order_dependent"] += 1
         if (m.get("err") or "").startswith("<"):
